@@ -895,6 +895,36 @@ pub fn pattern_condition_family(nm: &Names) -> Vec<F> {
     out
 }
 
+/// A closed sub-formula PSI evaluated inside the scope of a variable with a RESTRICTED domain, next to a jump to that
+/// variable (before / after it), and once more outside the scope (bare or under another quantifier), in both orders.
+/// What is computed inside a restricted scope must never be served outside it. Uses %d%, propositions a (and b).
+pub fn restricted_scope_duplicates(nm: &Names) -> Vec<F> {
+    let mut psis = vec!["(AG a)", "(EF (~a))", "(AX a)", "(EG a)"];
+    if nm.props.len() >= 2 {
+        psis.push("(a EU b)");
+        psis.push("(EF (a & b))");
+    }
+    let mut out = vec![];
+    for q1 in ["3", "V", "!"] {
+        for q2 in ["3", "V", "!"] {
+            for psi in &psis {
+                for glue in ["&", "|"] {
+                    for jump_first in [true, false] {
+                        let inside = if jump_first { format!("({q1}{{x}} in %d%: ((@{{x}}: a) {glue} {psi}))") } else { format!("({q1}{{x}} in %d%: ({psi} {glue} (@{{x}}: a)))") };
+                        for outside in [format!("({q2}{{y}}: (@{{y}}: {psi}))"), psi.to_string()] {
+                            out.push(f(&format!("{inside} | {outside}"), nm));
+                            out.push(f(&format!("{outside} & {inside}"), nm));
+                        }
+                    }
+                }
+            }
+        }
+    }
+    out.sort();
+    out.dedup();
+    out
+}
+
 /// Two-operator nests: every binary operator over every unary operator in either operand position
 /// (leaves: the propositions, True and False), and the same with a state variable / a closed fixed-point
 /// sub-formula as the inner operand. 4..7 nodes; systematic, not sampled.
